@@ -589,6 +589,9 @@ func runC10(ctx *Ctx) {
 		if c < 2 && ctx.Want(900200+c) {
 			firstCreditRace(ctx, 900200+c, c%2, "c10")
 		}
+		if c < 2 && ctx.Want(900300+c) {
+			reRegisterRace(ctx, 900300+c, c%2, "c10")
+		}
 	}
 	n := ctx.N(120, 3000)
 	forEachCase(ctx, n, func(i int, rng *rand.Rand) { c10Snapshots(ctx, i, rng) })
